@@ -3,6 +3,7 @@
 import json, subprocess
 
 HOOK_COMMITS = ["c13a16c", "6375c04"]
+FIX_COMMITS = ["5745400", "ae98e56", "dcffde2", "7418ea5", "efb55bc", "see git -C /repo log --grep ^fix:"]
 
 WIRE_NOTE = ("Trusted: the simulator itself (executor, pipe, model, oracle); AsyncTransport implementations are "
              "reliable and ordered; value codec/converter for payload equality; broker built with features "
@@ -35,7 +36,7 @@ CHECKS = [
          "Same harness, workload biased to subscribe/unsubscribe/subscribe-all/emit/destroy/disconnect; fan-out set, 0<->1 notifications to the owner (also on subscriber removal) and ServiceDestroyed notifications must equal the model; both subscription mirrors in the broker must agree with it after every step.",
          "DESIGN.md section 5 C04", SIM + "lock-step refinement check against a reference model of subscriptions"),
     wire("C05", "exploration",
-         "Part A (broker credit arithmetic and end state machine): create/claim/close/send-item/add-capacity/disconnect with capacities 0..u32::MAX, senders that respect or overrun their credit; credit announced to the sender is adopted from the broker and checked against invariants (announced<=granted, no stall, cut-off only on overrun, overflow closes only the receiver), item streams and notifications equal the model.",
+         "Part A (broker credit arithmetic and end state machine): create/claim/close/send-item/add-capacity/disconnect with capacities 0..u32::MAX, senders that respect or overrun their credit; credit announced to the sender is adopted from the broker and checked against invariants (announced<=granted, no stall, cut-off only on overrun, overflow closes only the receiver), item streams and notifications equal the model. Part B (every 4th run): real Sender/Receiver sessions between real clients on unbounded/bounded transports: the consumer must see exactly the produced sequence (a prefix if somebody closed early), producer and consumer must not deadlock (blocked-at-quiescence oracle), broker model in lock step.",
          "DESIGN.md section 5 C05", SIM + "history invariants over credit plus model comparison of the channel end state machine"),
     wire("C09", "fault_enumeration",
          "Mixed bus activity with every connection ended at a random script position in one of five ways (clean Shutdown, transport error, EOF, shutdown_connection, Connection task dropped with requests still queued), plus broker shutdown / idle shutdown teardown in every run; after every broker step the internal snapshot is cross-reference consistent and equal to the model, gauges equal true counts, peers got each notification once, and at the end nothing is left and Broker::run / Connection::run have returned.",
@@ -65,6 +66,28 @@ CHECKS.append({
     "technique": "deterministic simulation with fault injection: scripted AsyncRead/AsyncWrite (short reads/writes, Pending, EOF, write-zero, I/O errors) under a seeded scheduler, history check frames-in = frames-out",
 })
 
+API_NOTE = ("Trusted: the simulator (executor, transport wrapper, program interpreter, oracles, broker model). Older client versions are "
+            "emulated by clamping the minor version in the client's Connect2. Sampling, not enumeration. Bounds: 2-4 clients, 1-3 application "
+            "tasks each, 6-40 operations per task, UUID pools of 3, <=60000 executor steps per run; a poll that does not return within 60 s of "
+            "wall-clock time is reported as a hang.")
+
+def api(pid, category, text, ref, technique):
+    return {
+        "property_id": pid, "quick_cmd": f"./check {pid} quick", "thorough_cmd": f"./check {pid} thorough",
+        "evidence_file": f"/verif/evidence/{pid}.json", "replay_cmd_template": "./check --replay {path}", "engine": "aldrin-sim",
+        "level_claimed": {"category": category, "text": text, "design_ref": ref}, "level_note": API_NOTE, "technique": technique,
+    }
+
+CHECKS.append(api("C06", "exploration",
+    "Real Broker, Connection, ClientBuilder/Client and every client-side type run under the deterministic executor with 2-4 clients (versions 1.14-1.20; core::channel unbounded / bounded(1,2,4,16) or the simulated pipe) whose application tasks interpret random closed programs over the public API, with calls dropped or cancelled mid-flight, establish cancelled, spurious polls and Pending-injecting transports. Oracle: no Client::run returns UnexpectedMessageReceived (or any error), no poll of repository code panics (debug assertions on) or fails to return, at the first quiescence no task is blocked in an operation whose peer has acted (lost wake-up / deadlock), awaited calls return the value computed for that call, channel sessions deliver the produced sequence, every task has completed after all clients shut down and shutdown_idle makes Broker::run return; the broker model runs in lock step.",
+    "DESIGN.md section 5 C06", SIM.replace("broker/connection", "broker/connection/client") + "quiescence-based liveness oracle, result consistency checks"))
+CHECKS.append(api("C15", "fault_enumeration",
+    "The C06 programs plus one termination of a victim client per run: transport error or EOF at transport-operation index k (k a per-run fraction of the victim's operation count measured in a fault-free execution of the same plan) or Handle::shutdown / all handles dropped / BrokerHandle::shutdown / shutdown_connection applied at operation count k; 12 (quick) or 96 (thorough) (cause, k, schedule) variants per generated program. Oracle: the victim's Client::run returns Ok for clean causes and the injected transport error otherwise, no task of the victim is still blocked once run() has returned, nothing panics, every task has completed at the end, Connection::run returned and the broker model holds nothing of the victim, other clients finish.",
+    "DESIGN.md section 5 C15", SIM.replace("broker/connection", "broker/connection/client") + "fault points placed relative to a fault-free dry run of the same plan"))
+CHECKS.append(api("C19", "exploration",
+    "Mutator tasks create/destroy objects and services over 3x3 UUID pools (re-creation under the same UUID, partial service sets, services before/after discoverer start) while observers run discoverers with 1-3 entries of all four kinds, restart them, drain events at random rates, use find_object / wait_for_object and lifetime scopes. At quiescence every non-current-only discoverer entry must report exactly the matching objects of the broker model with current cookies and service ids, its event stream (cut at restarts) alternates created/destroyed per object over incarnations that existed and adds up to the reported state; a Lifetime has resolved iff its scope object is gone and never resolved earlier; find/wait results existed within the call window.",
+    "DESIGN.md section 5 C19", SIM.replace("broker/connection", "broker/connection/client") + "view-vs-registry comparison at quiescence against the broker model"))
+
 NA_PURE = "pure function of its input (no schedule, clock, fault, crash point or history for a simulator to search); input generation under a simulator's name would be fuzzing/property-based testing, a different technique family (DESIGN.md section 6)"
 
 NOT_APPLICABLE = [
@@ -76,10 +99,6 @@ NOT_APPLICABLE = [
     {"property_id": "C17", "reason": "schema front end is total: quantifies over source strings only; " + NA_PURE},
     {"property_id": "C18", "reason": "formatter preserves the schema and is idempotent: " + NA_PURE},
     {"property_id": "C20", "reason": "type ids are structural: pure function of the layout IR; " + NA_PURE},
-    {"property_id": "C06", "reason": "applicable (API-level simulation, DESIGN.md section 5 C06) but its check is not built yet; not claimed until it is"},
-    {"property_id": "C14", "reason": "applicable (scripted AsyncRead/AsyncWrite simulation, DESIGN.md section 5 C14) but its check is not built yet; not claimed until it is"},
-    {"property_id": "C15", "reason": "applicable (API-level fault enumeration, DESIGN.md section 5 C15) but its check is not built yet; not claimed until it is"},
-    {"property_id": "C19", "reason": "applicable (API-level simulation, DESIGN.md section 5 C19) but its check is not built yet; not claimed until it is"},
 ]
 
 claimed = {c["property_id"] for c in CHECKS}
